@@ -41,6 +41,7 @@ Definition stream_next (E : env) (itemp : env -> st -> res (value * st)) (ss : s
         if self_delineated then (Some (IVal v), ss2)
         else match peek_end_of_value E s2 with
              | Ok s3 => (Some (IVal v), mkSS s3 (off s2) (ss_failed ss))
+             | Err (Io k) i => (Some (IErr (Io k) i), set_failed E ss2)    (* an I/O error while looking ahead is terminal *)
              | r => (Some (res_item r), ss2)
              end
       | r => (Some (res_item r), set_failed E ss1)
